@@ -167,11 +167,10 @@ def emit_tu(cases):
 
 
 def canon(trace):
-    """canonical form for comparison: events inside one stop cascade (maximal runs of consecutive
-    'stopseen') are sorted (callback order on one source is most-recently-registered first, which the
-    structural model does not track); model-only 'leak' markers are dropped."""
+    """canonical form for the strict comparison: maximal runs of consecutive 'stopseen' are sorted, model-only 'leak'
+    markers and the batch markers '|' are dropped."""
     body, _, tail = trace.partition(" # ")
-    evs = [x for x in body.split(";") if x and not x.startswith("leak ")]
+    evs = [x for x in body.split(";") if x and x != "|" and not x.startswith("leak ")]
     out, run = [], []
     for x in evs:
         if x.startswith("stopseen "):
@@ -183,11 +182,44 @@ def canon(trace):
     return ";".join(out) + " # " + tail
 
 
+def _leaf_of(ev):
+    m = re.match(r"(?:start|stopseen) (\d+)", ev)
+    return m.group(1) if m else None
+
+
+def batches_equal(a, b):
+    """fallback when the strict comparison fails: the order in which ONE stop source runs its callbacks (most recently
+    registered first) is not tracked by the structural model, and a stop-reactive leaf completing inside the cascade can
+    put other events between two 'stopseen'.  Per script event (batch): identical if equal; a batch with >= 2 'stopseen'
+    is compared as a multiset plus, per leaf, the order of that leaf's own events; events that are not leaf events
+    (call / root / skip) must appear in the same relative order."""
+    ba, _, ta = a.partition(" # ")
+    bb, _, tb = b.partition(" # ")
+    if ta != tb:
+        return False
+    sa = [[x for x in part.split(";") if x and not x.startswith("leak ")] for part in ba.split("|")]
+    sb = [[x for x in part.split(";") if x and not x.startswith("leak ")] for part in bb.split("|")]
+    if len(sa) != len(sb):
+        return False
+    for x, y in zip(sa, sb):
+        if x == y:
+            continue
+        if sum(1 for e in x if e.startswith("stopseen ")) < 2 or sorted(x) != sorted(y):
+            return False
+        if [e for e in x if _leaf_of(e) is None] != [e for e in y if _leaf_of(e) is None]:
+            return False
+        leaves = set(_leaf_of(e) for e in x) - {None}
+        for l in leaves:
+            if [e for e in x if _leaf_of(e) == l] != [e for e in y if _leaf_of(e) == l]:
+                return False
+    return True
+
+
 def monitor(trace):
     """the properties themselves on an implementation trace: C01 at most one root completion;
     C04 no live registration on the root token at completion."""
     body, _, tail = trace.partition(" # ")
-    evs = body.split(";")
+    evs = [x for x in body.split(";") if x != "|"]
     roots = [x for x in evs if x.startswith("root ")]
     if len(roots) > 1:
         return "C01: %d root completions" % len(roots)
@@ -211,6 +243,8 @@ CORPUS = [
     ("withq", 0, 7, ("wall", ("withq", 1, 9, ("leaf", 0)), ("leaf", 1))),
     ("withq", 1, 6, ("seq", ("just", 1), ("letv", ("leaf", 0), ("fin", ("leaf", 1), ("then", ("add", 1), ("leaf", 2)))))),   # non-noexcept query through sequence/let_value/finally/then
     ("withq", 0, 9, ("lete", ("jerr", 21), ("letd", ("jdone",), ("swhen", ("leaf", 0), ("leaf", 1))))),
+    # stop cascade in which a reactive leaf's completion starts a new leaf between two stop callbacks (thorough-tier false alarm, now batch-compared)
+    ("letv", ("swhen", ("udone", ("add", 7), ("fin", ("letv", ("leaf", 0), ("leafn", 1)), ("leaf", 2))), ("leafn", 3)), ("var", 0)),
 ]
 
 
@@ -268,7 +302,7 @@ def run_k2(chk, n_tus, cases_per_tu, scripts_per_case, size_range=(2, 8), cfg="p
                 stats["roots_completed"] += 1
             mon = monitor(io) if not io.startswith("CRASH") else "crash: " + io[:200]
             ci, cm = (canon(io), canon(mo)) if not io.startswith("CRASH") else (io, mo)
-            if ci == cm and not mon:
+            if (ci == cm or (not io.startswith("CRASH") and batches_equal(io, mo))) and not mon:
                 chk.cov["traces_validated_against_impl"] += 1
                 if nontriv:
                     chk.sample({"expr": to_model(e), "prestop": pre, "script": sc, "trace": io[:300]}, limit=8)
